@@ -5,6 +5,7 @@ table the harness advances; content and size are real). One long-lived app insta
 after every step a request battery (plain GET + every validator form for every recorded version) is optionally run."""
 import itertools
 import os
+import sys
 import shutil
 import tempfile
 from email.utils import formatdate
@@ -70,6 +71,15 @@ class World:
             os.environ["TZ"] = tz
             _time.tzset()
         self.dir = tempfile.mkdtemp(prefix="c14-", dir=os.environ.get("VERIF_SCRATCH", "/tmp"))
+        self.top = self.dir
+        self.package = None
+        if settings and settings.get("package"):
+            # the served directory lies inside an importable package and is named relative to it
+            World._npkg = getattr(World, "_npkg", 0) + 1
+            self.package = f"c14pkg_{os.getpid()}_{World._npkg}"
+            os.makedirs(os.path.join(self.top, self.package, "static"))
+            open(os.path.join(self.top, self.package, "__init__.py"), "w").close()
+            self.dir = os.path.join(self.top, self.package, "static")
         self.path = os.path.join(self.dir, "x.html")
         self.vstat = VStat(self.dir)
         self.clock = T0 if t0 is None else t0
@@ -84,6 +94,18 @@ class World:
         from baize import wsgi as W, asgi as A
 
         kw = dict(settings or {})
+        kw.pop("package", None)
+        if self.package:
+            import importlib
+            sys.path.insert(0, self.top)
+            importlib.invalidate_caches()
+            try:
+                self.apps = {("wsgi", "Files"): W.Files("static", self.package, **kw), ("wsgi", "Pages"): W.Pages("static", self.package, **kw),
+                             ("asgi", "Files"): A.Files("static", self.package, **kw), ("asgi", "Pages"): A.Pages("static", self.package, **kw)}
+            finally:
+                sys.path.remove(self.top)
+                sys.modules.pop(self.package, None)
+            return
         self.apps = {("wsgi", "Files"): W.Files(self.dir, **kw), ("wsgi", "Pages"): W.Pages(self.dir, **kw), ("asgi", "Files"): A.Files(self.dir, **kw), ("asgi", "Pages"): A.Pages(self.dir, **kw)}
 
     def content(self):
@@ -119,7 +141,7 @@ class World:
 
     def close(self):
         os.stat = self.vstat.real
-        shutil.rmtree(self.dir, ignore_errors=True)
+        shutil.rmtree(self.top, ignore_errors=True)
         if self.tz:
             import time as _time
             os.environ["TZ"] = "UTC"
@@ -132,7 +154,11 @@ class World:
         app = self.apps[key]
         if iface == "wsgi":
             return SV.run_wsgi(app, SV.to_environ(req))
-        return SV.run_asgi(app, SV.to_scope(req), SV.to_messages(req))
+        scope = SV.to_scope(req)
+        self.nreq = getattr(self, "nreq", 0) + 1
+        if self.nreq % 2:
+            scope["headers"] = iter(scope["headers"])  # ASGI only promises an iterable: every other request gets one that can be read once
+        return SV.run_asgi(app, scope, SV.to_messages(req))
 
 
 def validator_headers(form, v):
@@ -161,7 +187,7 @@ def validator_headers(form, v):
 
 # (fraction of a second on the file clock, process time zone, application settings)
 VARIANTS = [(0.0, None, None), (0.6, None, None), (0.0, "America/New_York", None), (0.25, "Asia/Shanghai", None),
-            (0.0, None, {"cacheability": "no-cache"}), (0.0, None, {"cacheability": "private", "max_age": 0}), (0.0, None, {"cacheability": "no-store", "max_age": 1})]
+            (0.0, None, {"package": True}), (0.0, None, {"cacheability": "no-cache"}), (0.0, None, {"cacheability": "private", "max_age": 0}), (0.0, None, {"cacheability": "no-store", "max_age": 1})]
 
 
 def run_history(hist, r, collect_only=False, variant=0):
